@@ -253,6 +253,24 @@ def _sprintf(interp, args, node):
     return Sym('call', ('sprintf',))
 
 
+def _snprintf(interp, args, node):
+    """snprintf(buf, size, fmt, ...): at most size-1 characters and the terminator are stored, the full length is returned"""
+    buf, size = args[0], args[1]
+    fmt = _cstr(interp, args[2])
+    rest = [_cstr(interp, a) for a in args[3:]]
+    parts = pe.format_printf(fmt, rest) if isinstance(fmt, str) else [('fmt?', fmt)]
+    if isinstance(buf, Ptr) and isinstance(buf.c, list) and isinstance(size, int) and len(parts) == 1 and isinstance(parts[0], str):
+        s = parts[0]
+        if size > 0:
+            kept = s[:size - 1]
+            for i, ch in enumerate(kept):
+                interp.store(buf.c, buf.k + i, ord(ch))
+            interp.store(buf.c, buf.k + len(kept), 0)
+        return len(s)
+    interp.event('snprintf', (fmt,) + tuple(pe._hashable(a) for a in rest), node)
+    return Sym('call', ('snprintf',))
+
+
 def _fopen(interp, args, node):
     name = _cstr(interp, args[0])
     mode = _cstr(interp, args[1])
